@@ -3,8 +3,9 @@ import FR.Proofs.AsyncLife
 # C14 — the asyncio front-end gives the same replies as the sync front-end
 
 `Mode.async` selects `blockingAsync` (`AsyncFakeSocket._blocking`) instead of `blocking`; nothing else looks at the mode.
-The script commands (EVAL / EVALSHA / SCRIPT) hand the mode to the commands a script calls and are excluded from the
-statements about `runCommand` / `processCommand` (a script may call a blocking pop).
+The script commands (EVAL / EVALSHA / SCRIPT) hand the mode to the commands a script calls, but a script cannot call a
+blocking pop (BLPOP / BRPOP / BRPOPLPUSH are flagged `no_script`: the gate refuses them before their body runs), so
+script commands - issued directly or queued in a MULTI - do not look at the mode either (`script_mode_irrelevant`).
 `s.conn c` abbreviates `(M.getConn c s).1`; `s.HasConn c` says a connection with id `c` is registered;
 `lookupSig nameB` is the signature `processCommand` looks up from the first field of a request;
 `Pass = Bool → M (Except Err (Option Reply))` is one pass of a blocking pop (`bpopPass`, `brpoplpushPass`);
@@ -22,29 +23,41 @@ theorem special_mode_irrelevant_nonblocking (inner : Inner) (m1 m2 : Mode) (c : 
   special_mode_irrel inner m1 m2 c name args cis h
 
 theorem runCommand_mode_irrelevant (m1 m2 : Mode) (c : Nat) (sig : Sig) (raw : List Bytes) (fromScript : Bool)
-    (h : sig.name ∉ ["blpop", "brpop", "brpoplpush"]) (hx : sig.name ≠ "exec")
-    (hs : sig.name ∉ ["eval", "evalsha", "script"]) :
+    (h : sig.name ∉ ["blpop", "brpop", "brpoplpush"]) (hx : sig.name ≠ "exec") :
     runCommand m1 c sig raw fromScript = runCommand m2 c sig raw fromScript :=
-  runCommand_mode_irrel m1 m2 c sig raw fromScript h hx hs
+  runCommand_mode_irrel m1 m2 c sig raw fromScript h hx
 
-/-- the commands EXEC runs: same on both front-ends unless it is a blocking pop -/
+/-- the script commands themselves: same on both front-ends (a script cannot call a blocking pop) -/
+theorem script_mode_irrelevant (m1 m2 : Mode) (c : Nat) (sig : Sig) (raw : List Bytes) (fromScript : Bool) :
+    runScriptCmd m1 c sig raw fromScript = runScriptCmd m2 c sig raw fromScript :=
+  runScriptCmd_mode_irrel m1 m2 c sig raw fromScript
+
+/-- every call a script makes (`redis.call` / `redis.pcall`: `_run_command(…, from_script = True)`) is the same on
+both front-ends -/
+theorem script_call_mode_irrelevant (inner : Inner) (m1 m2 : Mode) (c : Nat) (op : LuaVal) (args : List LuaVal) :
+    runFromScript (special inner) m1 c op args = runFromScript (special inner) m2 c op args :=
+  runFromScript_mode_irrel inner m1 m2 c op args
+
+/-- the commands EXEC runs (queued script commands included): same on both front-ends unless it is a blocking pop -/
 theorem runInner_mode_irrelevant (m1 m2 : Mode) (c : Nat) (sig : Sig) (raw : List Bytes)
     (h : sig.name ∉ ["blpop", "brpop", "brpoplpush"]) : runInner m1 c sig raw = runInner m2 c sig raw :=
   runInner_mode_irrel m1 m2 c sig raw h
 
 theorem processCommand_mode_irrelevant (m1 m2 : Mode) (c : Nat) (nameB : Bytes) (args : List Bytes)
-    (h : ∀ sig, lookupSig nameB = some sig → sig.name ∉ ["blpop", "brpop", "brpoplpush"] ∧ sig.name ≠ "exec" ∧
-      sig.name ∉ ["eval", "evalsha", "script"]) :
+    (h : ∀ sig, lookupSig nameB = some sig → sig.name ∉ ["blpop", "brpop", "brpoplpush"] ∧ sig.name ≠ "exec") :
     processCommand m1 c (nameB :: args) = processCommand m2 c (nameB :: args) :=
   processCommand_mode_irrel m1 m2 c nameB args h
 
-/-- including EXEC, when the MULTI queue of the connection holds no blocking pop -/
+/-- including EXEC, when the MULTI queue of the connection holds no blocking pop (it may hold script commands) -/
 theorem processCommand_mode_irrelevant_exec (m1 m2 : Mode) (c : Nat) (nameB : Bytes) (args : List Bytes) (s : Sys)
-    (h : ∀ sig, lookupSig nameB = some sig → sig.name ∉ ["blpop", "brpop", "brpoplpush"] ∧
-      sig.name ∉ ["eval", "evalsha", "script"])
+    (h : ∀ sig, lookupSig nameB = some sig → sig.name ∉ ["blpop", "brpop", "brpoplpush"])
     (hq : ∀ q, (s.conn c).tx = some q → ∀ a ∈ q, a.1 ∉ ["blpop", "brpop", "brpoplpush"]) :
     (processCommand m1 c (nameB :: args)).run s = (processCommand m2 c (nameB :: args)).run s :=
   processCommand_exec_mode_irrel m1 m2 c nameB args s h hq
+
+/-- non-vacuity: EVAL is covered by `runCommand_mode_irrelevant` / `processCommand_mode_irrelevant` -/
+example : ∃ sig, SigTable.find "eval" = some sig ∧ sig.name ∉ ["blpop", "brpop", "brpoplpush"] ∧ sig.name ≠ "exec" :=
+  ⟨_, rfl, by decide, by decide⟩
 
 /-- `processCommand` of an empty request does nothing on either front-end -/
 theorem processCommand_nil (m1 m2 : Mode) (c : Nat) : processCommand m1 c [] = processCommand m2 c [] := rfl
